@@ -113,6 +113,12 @@ def run(ctx):
                         "variants": ["real", "random"], "nperturb": 8 if thorough else 3, "shard": len(jobs)})
             jobs.append(("c11", rq2, "t-%s-f%d" % (inst, fl)))
 
+    # caps and the circuit digest enter the transcript through the hash-to-Goldilocks conversion: that conversion must be a function
+    # (the decomposition of h + r must not be accepted where it is prover-supplied) - C10's ToVec part, here for the binding clause
+    rq = dict(files)
+    rq.update({"part": "tovec", "mode": "native", "nrandom": 5, "shard": 77})
+    jobs.append(("poseidon", rq, "tovec"))
+
     def one(j):
         return ctx.run_driver(j[0], j[1], tag=j[2], timeout=3000)
 
